@@ -31,7 +31,7 @@ CHECKS = {
     engine="derive",
     technique="inter-procedural pointer-derivation and write-summary analysis: no store or writing callee effect reaches any operand of the 39 query functions; per-loop path enumeration with linear facts classifying budget exits (sa/scan.py)",
     category="other",
-    text="Decides, for all operand contents and sizes, the clause 'query functions never modify their operands': every pointer derived from an operand parameter (through casts, arithmetic, phi, libc/library functions that return interior pointers) is followed into every callee; any store or writing effect is a violation. Also decided (scan completeness): in the 36 budgeted scan loops of these functions (a counter from a length argument decreasing by a constant, a cursor advancing by a constant) every exit whose guards bound the counter leaves the loop only after all `budget` elements were examined - a pre-decremented or `> 1` guard that leaves the last element untried is reported. Which exit yields which answer (equality with strcmp/strstr/strspn/...) is value-level and is not decided.",
+    text="Decides, for all operand contents and sizes, the clause 'query functions never modify their operands': every pointer derived from an operand parameter (through casts, arithmetic, phi, libc/library functions that return interior pointers) is followed into every callee; any store or writing effect is a violation. Also decided (scan completeness): in the 36 budgeted scan loops of these functions (a counter from a length argument decreasing by a constant, a cursor advancing by a constant) every exit whose guards bound the counter leaves the loop only after all `budget` elements were examined - a pre-decremented or `> 1` guard that leaves the last element untried is reported. The difference a comparison function stores through its result parameter is not truncated to the width of the compared elements. Which exit yields which answer (equality with strcmp/strstr/strspn/...) is value-level and is not decided.",
     design_ref="DESIGN.md §4 C10",
     note=TB + "; only the operands-unmodified clause is claimed; out-of-bounds reads of these functions belong to C02"),
  "C13": dict(
@@ -101,7 +101,7 @@ CHECKS = {
     engine="pathflags",
     technique="(a) enumeration of all 13 weak orderings of the four byte endpoints of the two operands; per ordering the reachable returns of each interval-testing function are computed by the path engine under the ordering's linear facts and compared with 'intervals intersect'; (b) structural dominance rule for the bumper comparisons in the 26 copy loops of the string family",
     category="other",
-    text="Clause (a) is exhaustive over relative placements for all sizes: an ordering fixes which comparisons of the overlap test are entailed; a test in the wrong unit or with a missing half leaves a branch undecided and a forbidden return reachable (success under intersection, ESOVRLP under disjointness, ESOVRLP for identical pointers where they are accepted). Clause (b): every write into dest inside a copy loop's body region (the store through the cursor, and any other store, memset or nested clearing helper in the blocks dominated by the loop's first body block) is strictly dominated, in the same iteration, by the comparison of a moving cursor with the fixed start of the other operand, whose equal edge leaves the loop. Clause (c): under an overlapping placement only copy loops of the safe direction are reachable in the move primitives. Not decided: that the memmove family produces exactly the bytes of a copy through a temporary.",
+    text="Clause (a) is exhaustive over relative placements for all sizes: an ordering fixes which comparisons of the overlap test are entailed; a test in the wrong unit or with a missing half leaves a branch undecided and a forbidden return reachable (success under intersection, ESOVRLP under disjointness, ESOVRLP for identical pointers where they are accepted). Clause (b): every write into dest inside a copy loop's body region (the store through the cursor, and any other store, memset or nested clearing helper in the blocks dominated by the loop's first body block) is strictly dominated, in the same iteration, by the comparison of a moving cursor with the fixed start of the other operand, whose equal edge leaves the loop. The same holds for a write through the loop's cursor behind the loop when the loop can be left before that iteration's comparison (six known findings: the field functions' slack clearing). Clause (c): under an overlapping placement only copy loops of the safe direction are reachable in the move primitives. Not decided: that the memmove family produces exactly the bytes of a copy through a temporary.",
     design_ref="DESIGN.md §3.4, §4 C07",
     note=TB + "; object sizes unknown to the library and byte sizes that are multiples of the element size are assumed for clause (a); identical-pointer acceptance is taken from the table in sa/checks/c07.py"),
  "C08": dict(
@@ -129,7 +129,7 @@ CHECKS = {
     engine="capcheck",
     technique="relational abstract interpretation of the two tokenizers with the string = merge(dest, *ptr) and capacity = entry value of *dmaxp: bounded accesses, consistency of the continuation pair, exactness of the delimiter-limit exit (off(delim cursor) == STRTOK_DELIM_MAX_LEN entailed both ways); CFG must-pass rule for storing *ptr; only-zero-stores rule; dominance rule for the continuation step; like-with-like rule for the delimiter comparisons",
     category="other",
-    text="Decides the bound clauses for all strings, dmax and delimiter sets: every access through the string cursor lies inside *dmaxp, the (*ptr, *dmaxp) pair handed back never permits access past the original *dmaxp, only zeros are stored into the string, a returned token implies *ptr was stored, and the 'delim is unterminated' exit fires exactly after STRTOK_DELIM_MAX_LEN scanned delimiters (so all of them take part), the continuation is set behind the cursor only where a dominating store nulled the element at the cursor (never behind the string's own terminator), and string and delimiter characters are compared with the same width and extension. Not decided: that the sequence of calls yields each maximal token exactly once.",
+    text="Decides the bound clauses for all strings, dmax and delimiter sets: every access through the string cursor lies inside *dmaxp, the (*ptr, *dmaxp) pair handed back never permits access past the original *dmaxp, only zeros are stored into the string, a returned token implies *ptr was stored, and the 'delim is unterminated' exit fires exactly after STRTOK_DELIM_MAX_LEN scanned delimiters (so all of them take part), the continuation is set behind the cursor only where a dominating store nulled the element at the cursor (never behind the string's own terminator), string and delimiter characters are compared with the same width and extension, and no loop advances the string cursor over an element it has not compared with the terminator (inside the iteration, or at the bottom of the previous one and before entry). Not decided: that the sequence of calls yields each maximal token exactly once.",
     design_ref="DESIGN.md §4 C14",
     note=TB + "; the caller hands back the previous (*ptr, *dmaxp) pair unchanged; 9 known findings (reads/writes at dest[*dmaxp] on the unterminated path, last token returned without storing *ptr)"),
 }
